@@ -4,6 +4,10 @@ import json, subprocess, sys
 claims = json.load(open('checker/manifest_claims.json'))
 props = [json.loads(l) for l in open('properties.jsonl')]
 checks, na = [], []
+rule_sets = {}
+for line in subprocess.run(['./bin/gritscheck', '-list'], capture_output=True, text=True).stdout.splitlines():
+    if line[:1] == 'C' and ' quick=[' in line:
+        rule_sets[line.split()[0]] = line.split('quick=[')[1].split(']')[0].split()
 for p in props:
     pid = p['id']
     c = claims.get(pid)
@@ -18,7 +22,7 @@ for p in props:
         "replay_cmd_template": "./bin/gritscheck -replay {path}",
         "engine": "gritscheck",
         "level_claimed": {"category": c['level'], "text": c['text'], "design_ref": c.get('design_ref', 'DESIGN.md §5 ' + pid)},
-        "level_note": c['note'],
+        "level_note": c['note'] + (" Rules decided (each documented in the evidence file and DESIGN.md): " + ", ".join(rule_sets.get(pid, [])) + "." if rule_sets.get(pid) else ""),
         "technique": c['technique'],
     })
 m = {
